@@ -110,7 +110,31 @@ def conversation(run, pv, rng, length, threshold, abrupt, label):
     encrypted = rng.random() < 0.25
     short_reads = rng.random() < 0.5
 
+    # A third of the conversations are the *second* session of a Connection
+    # object whose first session used the opposite transport settings
+    # (compression / encryption): state leaking from an earlier connection of
+    # the same object would show in the judged session.
+    warmup = rng.random() < 0.33 and not abrupt
+    warm_threshold = None if threshold is not None else 32
+    warm_encrypted = not encrypted
+
+    def warm_handler(io):
+        hs = scripts.read_handshake(io)
+        if hs is None:
+            return
+        scripts.login_offline(io, pv, warm_threshold, codec,
+                              encrypted=warm_encrypted)
+        for kind, (cid, cp), _exp in build_history(rng, pv, codec, 6,
+                                                   unknown_ids, unhandled):
+            io.send_frame(cid, cp)
+        did, dp = codec.encode('play_disconnect', {'reason': '"first"'})
+        io.send_frame(did, dp)
+        io.half_close()
+        io.drain(timeout=8.0)
+
     def handler(io):
+        if warmup and io.index == 0:
+            return warm_handler(io)
         hs = scripts.read_handshake(io)
         if hs is None:
             return
@@ -142,11 +166,26 @@ def conversation(run, pv, rng, length, threshold, abrupt, label):
     w = {'pv': pv, 'history_len': len(hist), 'threshold': threshold,
          'burst': burst, 'abrupt': abrupt, 'codec': type(codec).__name__,
          'encrypted': encrypted, 'short_reads': short_reads,
+         'second_session_of_object': warmup,
          'kinds': [h[0] for h in hist][:20]}
     try:
         conn = pc.make_connection(server.port, rec, allowed_versions={pv})
         conn.vf_rng = rng
         conn.vf_short_reads = short_reads     # partial TCP delivery
+        if warmup:
+            conn.connect()
+            if not pc.wait_idle(conn, 20.0):
+                return 'inconclusive', 'first session did not end'
+            if rec.exceptions or rec.exits != 1:
+                run.violation('play/first-session', 'the first (warm-up) '
+                              'session of the connection object did not end '
+                              'cleanly', dict(w, exc=repr(rec.exceptions[:1]),
+                                              exits=rec.exits))
+                return 'done', None
+            del rec.packets[:]
+            del rec.exceptions[:]
+            rec.exits = 0
+            run.count('conversations.second_session')
         conn.connect()
         done = pc.wait_idle(conn, 20.0)
         server.join(12.0)
@@ -217,7 +256,7 @@ def conversation(run, pv, rng, length, threshold, abrupt, label):
                                n_got=len(play_seen)))
         # ---- wire facts ------------------------------------------------------
         if not abrupt:
-            io = server.connections[0]
+            io = server.connections[-1]
             got = [(pid, bytes(p)) for pid, p, _i in (state['frames'] or [])]
             exp = [h[2] for h in hist if h[2] is not None]
             run.count('echoes_expected', len(exp))
